@@ -217,7 +217,7 @@ def gross_witness(got, spec, need=2, rel=1e-2):
             combo.append(_GW_VALUES[(state >> 16) % len(_GW_VALUES)])
         def ev(vals):
             env = {x: CE.f2b(x.w, v) for x, v in zip(ins, vals)}
-            a_, b_ = CE.b2f(got.w, CE.evaluate(got, env)), CE.b2f(spec.w, CE.evaluate(spec, env))
+            a_, b_ = CE.b2f(got.w, CE.evaluate(got, env, approx=True)), CE.b2f(spec.w, CE.evaluate(spec, env, approx=True))
             if a_ != a_ or b_ != b_ or abs(a_) == float('inf') or abs(b_) == float('inf'):
                 raise ValueError('not finite')
             return a_, b_
